@@ -36,6 +36,7 @@ Definition exact_answer (d : list (@outcome json * list jevent)) : Prop :=
   exists ms,
     yields d ms EStop /\
     map abs ms = deval P sev vp start /\
+    Forall wf ms /\
     Forall (fun m => cdata (abs m) = tdata m) ms /\
     Forall lazy_item d.
 
@@ -51,7 +52,7 @@ Proof.
   destruct (Hk B fuel HB ltac:(rewrite Hres; exact Hfuel)) as [Hc | Hp]; [left | right; exact Hp].
   destruct Hc as (ms & Hms & Hwf & Ho & _ & Hl).
   unfold answer in *. fold start in Hms, Ho. red in Hok. rewrite Hok in Ho.
-  exists ms. split; [exact Ho|]. split; [rewrite Hms; exact Hres|]. split; [|exact Hl].
+  exists ms. split; [exact Ho|]. split; [rewrite Hms; exact Hres|]. split; [exact Hwf|]. split; [|exact Hl].
   rewrite Forall_forall in *. intros m Hin. apply cdata_abs. apply Hwf. exact Hin.
 Qed.
 
